@@ -241,7 +241,7 @@ func top(r *vf.Run) {
 	r.Set("cases_planned", n-from0)
 	r.Set("parallel_children", par)
 	r.Assume("the Go runtime reports every fatal condition of a child on its stderr (panic / fatal error / signal) before the process ends; a death without such a report is counted inconclusive")
-	r.Assume("hang = the case, run alone, burns 60 s of CPU time (240 s in the race build) without finishing, or is parked for >=120 s with no CPU use in the last 30 s: 4-5 orders of magnitude above the normal cost (milliseconds); decided on CPU time and idleness, not on wall-clock, because the machine is shared")
+	r.Assume("hang = the case, run alone, burns 90 s of CPU time (360 s in the race build) without finishing, or is parked for >=120 s with no CPU use in the last 30 s: 4-5 orders of magnitude above the normal cost (milliseconds); decided on CPU time and idleness, not on wall-clock, because the machine is shared")
 	r.Assume("debug.SetMaxStack(16 MiB) in the children: unbounded recursion is reported as 'stack overflow' earlier than with the 1 GiB default; generated inputs nest at most ~3000 levels, far below either limit")
 	r.Assume("klauspost/compress, encoding/json, archive/tar, go-fuse, bbolt are part of the trusted base only in so far as a crash inside them with a /repo frame below is attributed to that /repo frame")
 }
@@ -606,7 +606,7 @@ func solo(r *vf.Run) {
 		defer close(done)
 		runCase(c)
 	}()
-	hangCPU := time.Duration(envInt("C04_HANG_CPU_S", 60)) * time.Second
+	hangCPU := time.Duration(envInt("C04_HANG_CPU_S", 90)) * time.Second
 	if r.RaceBuild {
 		hangCPU *= 4
 	}
